@@ -2597,6 +2597,8 @@ def cmd_hostile(args):
         native_case = len(data) >= 2 and _struct.unpack("<H", data[:2])[0] == PYTHON_MAGIC_INT and label != "valid"
         risky_case = label.startswith("adversarial:ref-chain-hash")
 
+        wd_s = [args.get("case_watchdog_s", 20)]
+
         def one_case():
             before = set(os.listdir(workdir))
             obs.input = data
@@ -2609,7 +2611,7 @@ def cmd_hostile(args):
             outcome = None
             err = None
             obs.active = True
-            _signal.setitimer(_signal.ITIMER_REAL, args.get("case_watchdog_s", 20))
+            _signal.setitimer(_signal.ITIMER_REAL, wd_s[0])
             try:
                 try:
                     r = load_module(case_path)
@@ -2667,6 +2669,15 @@ def cmd_hostile(args):
                 continue
         else:
             rr = one_case()
+        if rr["outcome"] == "watchdog":
+            # wall clock is no verdict on a loaded machine: the case gets a second run with ten times the allowance; only a
+            # case that exhausts that as well is reported (as inconclusive)
+            acc.count("c11_case_watchdog_first_firing_retried")
+            wd_s[0] *= 10
+            try:
+                rr = one_case()
+            finally:
+                wd_s[0] //= 10
         outcome, err, peak, steps = rr["outcome"], rr["err"], rr["peak"], rr["steps"]
         events = rr["events"]
         fs_new, fs_gone = rr["new"], rr["gone"]
